@@ -49,15 +49,20 @@ enum Spec {
     Splat,
 }
 
-fn word(l: HL, w: &str) -> String {
+pub fn word_s(l: HL, w: &'static str) -> &'static str {
+    let i = l.0 as usize;
     match w {
-        "about" => ["about", "a-propos", "apropos-ca", "about-e", "about-eng", "ueber", "about-x"][l.0 as usize].to_string(),
-        "users" => ["users", "utilisateurs", "usagers", "users-e", "users-eng", "nutzer", "users-x"][l.0 as usize].to_string(),
-        "files" => ["files", "fichiers", "fichiers-ca", "files-e", "files-eng", "dateien", "files-x"][l.0 as usize].to_string(),
+        "about" => ["about", "a-propos", "apropos-ca", "about-e", "about-eng", "ueber", "about-x"][i],
+        "users" => ["users", "utilisateurs", "usagers", "users-e", "users-eng", "nutzer", "users-x"][i],
+        "files" => ["files", "fichiers", "fichiers-ca", "files-e", "files-eng", "dateien", "files-x"][i],
         // a localized word that equals another locale's name
-        "lang" => ["en", "fr", "fr-CA", "e", "eng", "de", "english"][(l.0 as usize + 1) % 7].to_string(),
-        o => o.to_string(),
+        "lang" => ["en", "fr", "fr-CA", "e", "eng", "de", "english"][(i + 1) % 7],
+        o => o,
     }
+}
+
+fn word(l: HL, w: &'static str) -> String {
+    word_s(l, w).to_string()
 }
 
 fn shapes() -> Vec<Vec<Spec>> {
